@@ -566,7 +566,7 @@ Section Elem.
             if parent_is_block then
               uid <-- get_next_id ;;
               tagged_loop n' parent_is_block last items c kids
-                          (cms ++ [mkCm (tk_text token) uid (c_line c) line_offset (negb (Nat.eqb (c_fileid c) 0))])
+                          (cms ++ [mkCm (tk_text token) uid (c_line c) line_offset (negb (Nat.eqb (tk_fileid token) 0))])
             else tagged_loop n' parent_is_block last items c kids cms
         | BCNone => ret (kids, cms)
         end
